@@ -5,6 +5,7 @@ import scen_common
 PID = "C05"
 PROP_V = ["Props/Properties_C05cv.v", "Props/Properties_C05mu.v"]
 GEN_MODULES = ["Consts", "Sites"]
+FLOW_FILES = ['cv.c', 'mu_wait.c', 'sem_wait.c']
 REPLAY_HINT = "VRT_SEED=<seed> [VRT_MODE=<m>] _work/h/cv_mix | muwait_mix | cancel_mix"
 PARTIAL = ["the mu_wait half is C05mu_return over MuWaitModel (mode on return, 0 iff the condition is true, ETIMEDOUT only with an earlier clock "
            ">= deadline, ECANCELED only with a notified note); the cv half is Properties_C05cv over CvModel when present in the tree; "
